@@ -12,11 +12,11 @@ git -C "$W" checkout -q --detach "$(git -C /repo rev-parse HEAD)" && git -C "$W"
 echo "== confirm in $W"
 if [ -f "$SEED/seed_demo.rs" ]; then
   cp "$SEED/seed_demo.rs" "$W/tests/seed_demo.rs"
-  ( cd "$W" && CARGO_NET_OFFLINE=true cargo test --offline --test seed_demo >/tmp/seed-demo-clean.log 2>&1 ); echo "demo without patch: exit $? (expected 0)"
+  ( cd "$W" && CARGO_NET_OFFLINE=true cargo test --offline ${SEED_DEMO_FEATURES:-} --test seed_demo >/tmp/seed-demo-clean.log 2>&1 ); echo "demo without patch: exit $? (expected 0)"
 fi
 git -C "$W" apply "$SEED/patch.diff" || { echo "patch does not apply"; exit 2; }
 if [ -f "$SEED/seed_demo.rs" ]; then
-  ( cd "$W" && CARGO_NET_OFFLINE=true cargo test --offline --test seed_demo >/tmp/seed-demo-patched.log 2>&1 ); echo "demo with patch: exit $? (expected non-zero)"
+  ( cd "$W" && CARGO_NET_OFFLINE=true cargo test --offline ${SEED_DEMO_FEATURES:-} --test seed_demo >/tmp/seed-demo-patched.log 2>&1 ); echo "demo with patch: exit $? (expected non-zero)"
   rm -f "$W/tests/seed_demo.rs"
 fi
 VERIF_REPO="$W" /verif/baseline.sh; echo "baseline with patch: exit $? (expected 0)"
